@@ -87,6 +87,8 @@ func (s *c05spy) TryRandomChange() {
 	c05stats[fmt.Sprintf("live_result_%d", last)]++
 }
 
+var c05revalued = map[string][]float64{}
+
 type c05finish struct {
 	reported *marchive.NonDominanceModelArchive
 }
@@ -157,7 +159,7 @@ func c05liveRun(name, dataPath string, averagedCoolant bool, iterations int, see
 	live := r.arch.Archive()
 	if !panicked {
 		if fin.reported == nil {
-			r.fail("FinishedAnnealing carried no ModelArchive attribute", J{})
+			r.fail("FinishedAnnealing carried no ModelArchive attribute", func() J { return J{} })
 		} else {
 			rep := fin.reported.Archive()
 			same := len(rep) == len(live)
@@ -165,26 +167,40 @@ func c05liveRun(name, dataPath string, averagedCoolant bool, iterations int, see
 				same = rep[i] == live[i]
 			}
 			if !same {
-				r.fail("the finally reported archive differs from the explorer's live archive", J{"reported": c05plainEntries(rep), "live": c05plainEntries(live)})
+				r.fail("the finally reported archive differs from the explorer's live archive", func() J { return J{"reported": c05plainEntries(rep), "live": c05plainEntries(live)} })
 			}
 		}
 	}
 	// every reported member's objective values are those of the model evaluated at the member's action set
 	for _, member := range live {
-		fresh := newModel()
-		fresh.Initialise(model.AsIs)
+		// one fresh model per distinct (dataset, limits, action set): building a model re-reads the dataset
+		cacheKey := fmt.Sprint(dataPath, modelExtra, "|", c05entryOf(member).acts)
 		var values []float64
-		p, pw := protect(func() {
-			r.arch.Decompress(member, fresh)
-			keys := fresh.NameMappedVariables().SortedKeys()
-			for _, key := range keys {
-				values = append(values, fresh.DecisionVariable(key).Value())
+		var p bool
+		var pw string
+		if cached, ok := c05revalued[cacheKey]; ok {
+			values = cached
+		} else {
+			fresh := newModel()
+			fresh.Initialise(model.AsIs)
+			p, pw = protect(func() {
+				r.arch.Decompress(member, fresh)
+				keys := fresh.NameMappedVariables().SortedKeys()
+				for _, key := range keys {
+					values = append(values, fresh.DecisionVariable(key).Value())
+				}
+			})
+			if !p {
+				c05revalued[cacheKey] = values
 			}
-		})
+			c05stats["live_fresh_models_built"]++
+		}
 		c05stats["live_members_revalued"]++
 		if p || !c05sameVec(values, member.Variables) {
 			r.fail("a reported member's objective values are not those of the model evaluated at its action set",
-				J{"member": J{"vec": []float64(member.Variables), "acts": c05entryOf(member).acts}, "revalued": values, "panic": pw})
+				func() J {
+					return J{"member": J{"vec": []float64(member.Variables), "acts": c05entryOf(member).acts}, "revalued": values, "panic": pw}
+				})
 		}
 	}
 	c05emitSeq(r, spy.obs)
